@@ -32,7 +32,7 @@ fn budget(bytes: usize, len: usize, n: usize) -> u32 {
 /// send_command with up to 17 parameter bytes: [opcode][params], DC low exactly for the opcode
 #[kani::proof]
 #[kani::unwind(20)]
-//@ props=C06 inst="SpiInterface::send_command" bounds="any opcode, 0..=17 parameter bytes with symbolic content, buffer of 4 bytes, symbolic initial DC level" timeout=400 mem=4
+//@ props=C06,C08 inst="SpiInterface::send_command" bounds="any opcode, 0..=17 parameter bytes with symbolic content, buffer of 4 bytes, symbolic initial DC level" timeout=400 mem=4
 fn c06_send_command() {
     let args: [u8; 17] = kani::any();
     let na: usize = kani::any();
@@ -43,7 +43,7 @@ fn c06_send_command() {
     let mut buf = [0u8; 4];
     let mut di = SpiInterface::new(SpiDev(wp), SpiDc(wp), &mut buf);
     di.send_command(cmd, &args[..na]).unwrap();
-    assert!(sw.total as usize == 1 + na, "[C06] exactly opcode + parameter bytes");
+    assert!(sw.total as usize == 1 + na, "[C06][C08] exactly opcode + parameter bytes");
     assert!(sw.dc_low_bytes == 1 && sw.dc_high, "[C06] DC low for exactly the instruction byte, high afterwards");
     assert!(sw.non_write_ops == 0, "[C06] only writes");
     if sw.probe_hit {
@@ -143,7 +143,7 @@ fn repeated_h<const N: usize>(cmax: u32) {
             }
             t += 1;
         }
-        assert!(sw.probe_byte == p[r] && sw.probe_dc, "[C06][C05][C19] repeated pixel byte, no stale buffer content");
+        assert!(sw.probe_byte == p[r] && sw.probe_dc, "[C06][C05][C19][C01] repeated pixel byte, no stale buffer content");
     }
     kani::cover!(count == cmax && len == LMAX - 1, "cover: max count, odd buffer");
     kani::cover!(count == 0, "cover: zero count");
@@ -199,7 +199,7 @@ macro_rules! h {
 h!(c06_pixels_n2, 10, pixels_h::<2, 6>());
 //@ props=C06,C20,C01,C04 inst="SpiInterface::send_pixels::<3> (Rgb666)" bounds="buffer length 3..=8, 0..=6 pixels" timeout=900 mem=6
 h!(c06_pixels_n3, 10, pixels_h::<3, 6>());
-//@ props=C06,C20,C05 inst="SpiInterface::send_repeated_pixel::<2>" bounds="buffer length 2..=8, count 0..=6" timeout=600 mem=4
+//@ props=C06,C20,C05,C01 inst="SpiInterface::send_repeated_pixel::<2>" bounds="buffer length 2..=8, count 0..=6" timeout=600 mem=4
 h!(c06_repeated_n2, 10, repeated_h::<2>(6));
 //@ props=C06,C20,C05,C19 inst="SpiInterface::send_repeated_pixel::<3>" bounds="buffer length 3..=8, count 0..=6" timeout=600 mem=4
 h!(c06_repeated_n3, 10, repeated_h::<3>(6));
